@@ -29,6 +29,16 @@ class BoundMethod:
     def __call__(self, *args, **kw):
         return self.folder.call_method(self.inst, self.cls, self.fn, list(args), kw)
 
+class Partial:
+    """functools.partial over a folded callable."""
+    _sa_fold_ok = True
+    def __init__(self, func, args, kw):
+        self.func, self.args, self.kw = func, tuple(args), dict(kw)
+    def __call__(self, *args, **kw):
+        k = dict(self.kw)
+        k.update(kw)
+        return self.func(*(self.args + tuple(args)), **k)
+
 class FakeFile:
     _sa_fold_ok = True
     def __init__(self, name, mode, sink):
@@ -140,6 +150,10 @@ class ClassFolder:
                         folder = self if obj._mod == self.modname else ClassFolder(self.repo, obj._mod, self.extra_hook)
                         return hasattr(obj, name) or folder.find_method(obj._cls, name)[1] is not None
                     return hasattr(obj, name)
+                if isinstance(fn, ast.Name) and fn.id == 'partial' and fn.id not in lit.env and n.args:
+                    a = lit._seq(n.args)
+                    if isinstance(a[0], (BoundMethod, Closure, Partial)):
+                        return Partial(a[0], a[1:], {k.arg: lit.ev(k.value) for k in n.keywords if k.arg})
                 if isinstance(fn, ast.Name) and fn.id == 'open' and fn.id not in lit.env and self.files is not None:
                     args = lit._seq(n.args)
                     return FakeFile(args[0], args[1] if len(args) > 1 else 'r', self.files)
@@ -169,7 +183,7 @@ class ClassFolder:
                         target = lit.ev(fn)
                     except NotLiteral:
                         target = None
-                    if isinstance(target, (Closure, BoundMethod)):
+                    if isinstance(target, (Closure, BoundMethod, Partial)):
                         r = target(*lit._seq(n.args), **{k.arg: lit.ev(k.value) for k in n.keywords if k.arg})
                         return FOLDED_NONE if r is None else r
                     if isinstance(target, tuple) and target and target[0] == 'cls':
@@ -214,7 +228,7 @@ class ClassFolder:
                     target = lit.ev(fn)
                 except NotLiteral:
                     target = None
-                if isinstance(target, (BoundMethod, Closure)):
+                if isinstance(target, (BoundMethod, Closure, Partial)):
                     r = target(*lit._seq(n.args), **{k.arg: lit.ev(k.value) for k in n.keywords if k.arg})
                     return FOLDED_NONE if r is None else r
             return None
